@@ -108,7 +108,10 @@ def rand_adj(rng, shape):
         if not any(per):
             per[rng.randrange(len(shape))] = True
         return ['grid', per]
-    return ['diag']
+    if r < 0.93:
+        return ['diag']
+    n = nprod(shape)
+    return ['cut', sorted(rng.sample(range(n), rng.randint(1, max(1, min(3, n // 3)))))]
 
 
 def rand_case(rng, maxpix=36, dtype=None, allow_user=True, adj=None, scale=None):
